@@ -798,6 +798,13 @@ func c18NewWorld(r *RunCtx, hist int) (*c18World, error) {
 	for i := 1; i <= 4; i++ {
 		w.accts = append(w.accts, Acct(i))
 	}
+	// a fifth account whose bech32 spelling happens to end in the letters of a TLD (one address in 32768 does), and a
+	// name somebody else registered that spells the rest of that address: an address target is that account, whatever
+	// names exist
+	victim := c18AddressEndingIn("jkl")
+	w.accts = append(w.accts, victim)
+	vs := victim.String()
+	w.e.App.RnsKeeper.SetNames(w.e.Ctx, rnstypes.Names{Name: vs[:len(vs)-4], Tld: "jkl", Value: w.accts[3].String(), Expires: 1 << 40})
 	w.setName("alice.jkl", w.accts[0].String())
 	w.setName("bob.jkl", strings.ToUpper(w.accts[1].String())) // a value in the other spelling still resolves
 	w.setName("carol.jkl", w.accts[2].String())
@@ -922,4 +929,20 @@ func runC18(r *RunCtx) error {
 		w.e.Close()
 	}
 	return nil
+}
+
+var c18EndingCache = map[string]sdk.AccAddress{}
+
+// c18AddressEndingIn finds (deterministically) a test account whose bech32 spelling ends in the given letters.
+func c18AddressEndingIn(suffix string) sdk.AccAddress {
+	if a, ok := c18EndingCache[suffix]; ok {
+		return a
+	}
+	setBech32()
+	for i := 1000; ; i++ {
+		if a := Acct(i); strings.HasSuffix(a.String(), suffix) {
+			c18EndingCache[suffix] = a
+			return a
+		}
+	}
 }
